@@ -177,23 +177,62 @@ fn run<F: Elem>(case: &WhitenCase, obs: &mut Obs) {
                 worst.2,
                 cov_tol
             );
-            // PCA and ZCA rest on linfa-linalg's iterative SVD, which sporadically stops before
-            // convergence. Such a failure is chaotic in the input; a wrong whitening formula is not.
-            // Recognise the former by refitting on the same data with the feature order reversed.
-            let cured = p >= 2
-                && matches!(case.method, WhKind::Pca | WhKind::Zca)
-                && {
-                    let xr: Array2<F> = build(&c.x.iter().map(|r| r.iter().rev().copied().collect()).collect::<Vec<Vec<f64>>>(), p, c.fortran);
-                    match vengine::guard(|| fit::<F>(case.method, &xr, c.meta.view).map(|wr| wr.arr(xr.clone()))) {
+            // PCA and ZCA rest on linfa-linalg's iterative SVD, which sporadically stops with an
+            // unconverged singular pair. Such a failure is chaotic in the floating-point path; a wrong
+            // whitening formula is a function of the exact sample covariance and therefore behaves
+            // the same (up to the permutation) on every equivalent presentation of the same data.
+            // Recognise the former by (1) the transform still having the shape the formula guarantees
+            // whatever the SVD returns (ZCA: symmetric matrix; PCA: mutually orthogonal rows) and
+            // (2) at least one re-presentation of the *same* data (features rotated or reversed, rows
+            // reversed, other storage order — never re-centred or rescaled) being whitened within
+            // tolerance by a fresh fit.
+            let shape_ok = match case.method {
+                WhKind::Zca => {
+                    let big = wm.iter().flatten().fold(0.0f64, |a, v| a.max(v.abs()));
+                    (0..p).all(|a| (0..p).all(|b| (wm[a][b] - wm[b][a]).abs() <= 1e3 * eps * big))
+                }
+                WhKind::Pca => (0..p).all(|a| {
+                    (0..p).all(|b| {
+                        a == b || {
+                            let d: f64 = (0..p).map(|k| wm[a][k] * wm[b][k]).sum();
+                            let na: f64 = (0..p).map(|k| wm[a][k] * wm[a][k]).sum::<f64>().sqrt();
+                            let nb: f64 = (0..p).map(|k| wm[b][k] * wm[b][k]).sum::<f64>().sqrt();
+                            d.abs() <= 1e3 * eps * na * nb
+                        }
+                    })
+                }),
+                WhKind::Cholesky => false,
+            };
+            let mut cured: Option<String> = None;
+            if shape_ok && p >= 2 {
+                let mut presentations: Vec<(String, Vec<Vec<f64>>, bool)> = vec![];
+                for k in 1..p {
+                    presentations.push((
+                        format!("features rotated by {k}"),
+                        c.x.iter().map(|r| { let mut q = r.clone(); q.rotate_left(k); q }).collect(),
+                        c.fortran,
+                    ));
+                }
+                presentations.push(("features reversed".into(), c.x.iter().map(|r| r.iter().rev().copied().collect()).collect(), c.fortran));
+                presentations.push(("rows reversed".into(), c.x.iter().rev().cloned().collect(), c.fortran));
+                presentations.push(("other storage order".into(), c.x.clone(), !c.fortran));
+                for (name, rows, fortran) in presentations {
+                    let xr: Array2<F> = build(&rows, p, fortran);
+                    let ok = match vengine::guard(|| fit::<F>(case.method, &xr, c.meta.view).map(|wr| wr.arr(xr.clone()))) {
                         Ok(Ok(zr)) if zr.dim() == (n, p) => deviation_from_identity(&widen(&zr), p).0 <= cov_tol,
                         _ => false,
+                    };
+                    if ok {
+                        cured = Some(name);
+                        break;
                     }
-                };
-            if cured {
+                }
+            }
+            if let Some(how) = cured {
                 obs.class("svd_sporadic_failure");
                 obs.fail(
                     "whiten:svd-sporadic-inaccuracy",
-                    format!("{detail}; refitting on the same data with the features in reverse order whitens within tolerance, so the deviation stems from the SVD iteration (linfa-linalg), not from the whitening formula"),
+                    format!("{detail}; a fresh fit on the same data presented with {how} whitens within tolerance, so the deviation stems from the SVD iteration (linfa-linalg), not from the whitening formula"),
                 );
             } else {
                 obs.fail("whiten:covariance-not-identity", detail);
